@@ -451,6 +451,47 @@ func runC05(c *Ctx) {
 							w.request("RDG_OUT_DATA", []string{"NTLM " + b64(codec.NTLMNegotiate())}, fmt.Sprintf("10.7.%d.%d:%d", k/250, 1+k%250, 20000+k))
 						}
 						c.S.Count("probe.ntlm_flood")
+						if fault == "" && c.S.Viol == nil {
+							// a newcomer with correct credentials, while the others are still parked
+							e2, err := c.S.Connect(fmt.Sprintf("x%db", w.n), "10.6.9.9:47009", c.W.GW.Addr)
+							if err != nil {
+								c.Infra("connect: %v", err)
+								return
+							}
+							e2.Opaque, e2.Peer.Opaque = true, true
+							xid0 := xid
+							xid = fmt.Sprintf("{C05Y-%d}", w.n)
+							e2.Send(mk(b64(codec.NTLMNegotiate())))
+							c.S.Run(func() bool { h, _ := codec.ParseHead(e2.Recv); return h != nil || e2.EOFSeen }, 6000, 20*time.Second)
+							var ch2 *codec.NTLMChallenge
+							st1 := 0
+							if h, _ := codec.ParseHead(e2.Recv); h != nil {
+								st1 = h.Status
+								for _, v := range h.Header.Values("Www-Authenticate") {
+									if strings.HasPrefix(v, "NTLM ") {
+										if raw, err := base64.StdEncoding.DecodeString(v[5:]); err == nil {
+											ch2, _ = codec.ParseNTLMChallenge(raw)
+										}
+									}
+								}
+							}
+							st2 := 0
+							if ch2 != nil {
+								nt2, lm2, sbk2 := codec.NTLMv2Response("alice", "correct horse", "", ch2.ServerChallenge, []byte("clntcha2"), ch2.TargetInfo, time.Now())
+								e2.Recv = nil
+								e2.Send(mk(b64(codec.NTLMAuthenticate("alice", "", "WS", nt2, lm2, sbk2))))
+								c.S.Run(func() bool { h, _ := codec.ParseHead(e2.Recv); return h != nil || e2.EOFSeen }, 6000, 20*time.Second)
+								if h, _ := codec.ParseHead(e2.Recv); h != nil {
+									st2 = h.Status
+								}
+							}
+							log = append(log, fmt.Sprintf("newcomer-after-the-flood->%d,%d", st1, st2))
+							if st2 != 101 && st2 != 200 {
+								c.S.Fail("C05", "good-credentials-refused", "auth=%v: while 1100 unfinished NTLM exchanges of other clients are parked, a new client with correct credentials gets %d to its negotiate and %d to its authenticate message", w.mechs, st1, st2)
+							}
+							e2.Shut()
+							xid = xid0
+						}
 						// then the first client answers its challenge on its own connection
 						e1.Recv = nil
 						e1.Send(mk(b64(codec.NTLMAuthenticate("alice", "", "WS", nt, lm, sbk))))
